@@ -199,7 +199,7 @@ def parse_sidecar(path, relsrc):
                 raise ExtractError(f"{path}:{i}: unexpected line {s!r}")
             continue
         # clause lines
-        m = re.match(r"\[([A-Za-z0-9_, -]*)\]\s*(.*)$", s)
+        m = re.match(r"\[([A-Za-z0-9_, ~-]*)\]\s*(.*)$", s)
         if m:
             flush()
             tags = m.group(1).replace(",", " ").split()
